@@ -47,6 +47,19 @@ def pyClass : Op → String
   | .customErr => "TealerCustomErrInstruction"
   | _ => "Instruction"
 
+/-- what `isClass` assumes of tealer's class hierarchy (SPEC): among the classes of their modules, each instruction / field class
+    the analyses test with `isinstance` has no instance but its own - `itxn` is not a `Txn`, `gitxn` not a `Gtxn` - except
+    `IntcInstruction`, the common base of the `intc` family.  `Props/Tie.class_hierarchy_tie` compares this table with the
+    one read from /repo on every run. -/
+def classHierarchySpec : List (String × List String) :=
+  (["Int", "PushInt"].map fun c => (c, [c])) ++
+  [("IntcInstruction", ["Intc", "Intc0", "Intc1", "Intc2", "Intc3", "IntcInstruction"])] ++
+  (["Addr", "Txn", "Gtxn", "Gtxns", "Global", "Eq", "Neq", "Less", "LessE", "Greater", "GreaterE", "And", "Or", "Not", "Add", "Sub",
+    "Assert", "Return", "Err", "BZ", "BNZ", "TealerCustomErrInstruction", "B", "Callsub", "Retsub", "Switch", "Match", "Label", "Pragma",
+    "Intcblock",
+    "RekeyTo", "CloseRemainderTo", "AssetCloseTo", "Sender", "Fee", "TypeEnum", "OnCompletion", "ApplicationID", "GroupIndex",
+    "GroupSize", "ZeroAddress", "CreatorAddress"].map fun c => (c, [c]))
+
 /-- `isinstance(ins, C)` for one of the classes above -/
 def isClass (op : Op) (c : String) : Bool := pyClass op == c
 
